@@ -232,8 +232,7 @@ def _r2(repo, L, ovr, frag, summaries):
         try:
             ns, ne = as_lin(hs["_start"]), as_lin(hs["_end"])
         except (KeyError, NotNumeric):
-            fails.append((r, "new fragment's coordinates are not integer forms"))
-            continue
+            raise AnalysisError(f"{m.short}: the coordinates of the new fragment are not linear integer forms on a path: no verdict")
         S1, E1 = as_lin(r.heap[("self", "start")]), as_lin(r.heap[("self", "end")])
         dS, dE = S1 - S0, E0 - E1
         # (a) span moves exactly onto the bait
